@@ -80,13 +80,20 @@ def const_strategy():
 @st.composite
 def case_strategy(draw, max_depth=3):
     nvars = draw(st.integers(0, 3))
+    # a third of the programs are homogeneous in width and signedness: there
+    # the typing of constants and sub-expressions alone decides which
+    # instruction variant (arithmetic / logical shift ...) is right
+    profile = draw(st.sampled_from([None, None, None, None, "r", "w", "sr",
+                                    "sw"]))
+    pfmts = {"r": "Q", "w": "I", "sr": "q", "sw": "i"}
     decls = [{"name": f"v{i}",
               "kind": draw(st.sampled_from(["local", "map", "pkt"])),
-              "fmt": draw(st.sampled_from(FMTS))} for i in range(nvars)]
+              "fmt": pfmts[profile] if profile
+              else draw(st.sampled_from(FMTS))} for i in range(nvars)]
     nregs = draw(st.integers(0 if nvars else 1, 3))
     nos = draw(st.permutations(dsl.REG_CANDIDATES))[:nregs]
-    regs = [{"no": n, "view": draw(st.sampled_from(["r", "sr", "w", "sw"]))}
-            for n in nos]
+    regs = [{"no": n, "view": profile or draw(st.sampled_from(
+        ["r", "sr", "w", "sw"]))} for n in nos]
     leaves = [["var", d["name"]] for d in decls] \
         + [["reg", r["view"], r["no"]] for r in regs]
 
@@ -114,7 +121,21 @@ def case_strategy(draw, max_depth=3):
                     tree(depth - 1)]
         return ["bin", op, tree(depth - 1), tree(depth - 1)]
 
-    expr = tree(draw(st.integers(1, max_depth)), True)
+    if draw(st.integers(0, 5)) == 0:
+        # the typing of a sub-expression with a constant decides between the
+        # signed and the unsigned variant of the operation applied to it
+        inner = ["bin", draw(st.sampled_from(["+", "-", "^", "|", "&"])),
+                 leaf(), ["const", draw(st.integers(1, 16)
+                                        | const_strategy())]]
+        if draw(st.booleans()):
+            inner = [inner[0], inner[1], inner[3], inner[2]]
+        expr = draw(st.sampled_from([
+            ["bin", ">>", inner, ["const", draw(st.integers(1, 31))]],
+            ["abs", inner],
+            ["bin", "//", inner, ["const", draw(st.integers(1, 9))]],
+            ["bin", "%", inner, ["const", draw(st.integers(1, 9))]]]))
+    else:
+        expr = tree(draw(st.integers(1, max_depth)), True)
     dst = leaf()
     aug = draw(st.none() | st.sampled_from(BINOPS)) \
         if draw(st.integers(0, 3)) == 0 else None
@@ -149,6 +170,39 @@ def value_strategy(fmt, mode, wide):
 
 def strategy(tier):
     return case_strategy(3 if tier == "quick" else 4)
+
+
+def enumerate_cases(tier):
+    """systematic part: the operation whose variant depends on signedness
+    (>>, abs, //, %) applied to `leaf op constant` / `constant op leaf` for
+    every width / signedness of the leaf and constants around the typing
+    boundaries, on boundary inputs"""
+    consts = [1, 5, -5, 0x7fffffff, 0x80000000, 0xffffffff, -0x80000000,
+              2**63 - 1, 2**63, 2**64 - 1]
+    for view, fmt in (("r", "Q"), ("sr", "q"), ("w", "I"), ("sw", "i")):
+        lo, hi = dsl.fmt_range(fmt)
+        pool = [v for v in (0, 1, 4, 7, hi, hi - 4, hi // 2 + 1, lo, lo + 3,
+                            -1, -6) if lo <= v <= hi]
+        for leafkind in ("reg", "var"):
+            if leafkind == "reg":
+                decls, regs = [], [{"no": 3, "view": view}]
+                leaf, name = ["reg", view, 3], "r3"
+            else:
+                decls, regs = [{"name": "v0", "kind": "local",
+                                "fmt": fmt}], []
+                leaf, name = ["var", "v0"], "v0"
+            for op in ("+", "-", "^", "|", "&"):
+                for c in consts:
+                    for swap in (False, True):
+                        inner = ["bin", op, ["const", c], leaf] if swap \
+                            else ["bin", op, leaf, ["const", c]]
+                        for outer in (["bin", ">>", inner, ["const", 1]],
+                                      ["abs", inner],
+                                      ["bin", "//", inner, ["const", 3]],
+                                      ["bin", "%", inner, ["const", 3]]):
+                            yield {"decls": decls, "regs": regs, "dst": leaf,
+                                   "aug": None, "expr": outer,
+                                   "vectors": [{name: v} for v in pool]}
 
 
 # ----------------------------------------------------------------- oracle
@@ -235,6 +289,10 @@ def ev(node, env, fmts, W, facts):
                 out.add(a + b)
             elif op == "-":
                 out.add(a - b)
+                if node[2][0] == "reg" and node[2][1] == "r" \
+                        and node[3][0] == "const" and node[3][1] > 0 \
+                        and a - b >= 1 << 63:
+                    facts.add("unsigned-register-minus-const-topbit")
             elif op == "*":
                 out.add(a * b)
             elif op == "&":
@@ -477,6 +535,12 @@ KNOWN = {
     # computed through it is shifted right logically / not negated by abs
     "C01-and-result-unsigned":
         lambda case, res: "negative-through-and" in res.get("facts", ()),
+    # r - c (64 bit unsigned register, positive constant) is built as
+    # r + (-c) and typed signed through the negated constant; same root cause
+    # as C03-unsigned-register-minus-const
+    "C01-unsigned-register-minus-const":
+        lambda case, res: "unsigned-register-minus-const-topbit"
+        in res.get("facts", ()),
     # abs() treats an unsigned 64 bit operand with bit 63 set as negative
     "C01-abs-unsigned-topbit":
         lambda case, res: "abs-unsigned-topbit" in res.get("facts", ()),
